@@ -28,6 +28,9 @@ enum Derived {
     Dev,
     #[px(profile = "prd")]
     Prod,
+    /// never selected: it makes the declaration order of the names (dev, prd, ci) differ from their
+    /// alphabetical order, and puts an un-annotated variant after the annotated one
+    Ci,
 }
 #[derive(Clone, Copy, PartialEq, Eq)]
 enum Prof {
@@ -57,6 +60,7 @@ impl std::str::FromStr for Prof {
         match <Derived as std::str::FromStr>::from_str(s) {
             Ok(Derived::Dev) => Ok(Prof::Dev),
             Ok(Derived::Prod) => Ok(Prof::Prod),
+            Ok(Derived::Ci) => Err("a profile nobody asked for"),
             Err(e) => {
                 std::mem::forget(e);
                 Err("unknown profile")
@@ -73,6 +77,7 @@ impl AsRef<str> for Prof {
         let (k, n): (u8, &'static str) = match self.derived() {
             Some(Derived::Dev) => (1, unsafe { std::mem::transmute::<&str, &'static str>(Derived::Dev.as_ref()) }),
             Some(Derived::Prod) => (2, unsafe { std::mem::transmute::<&str, &'static str>(Derived::Prod.as_ref()) }),
+            Some(Derived::Ci) => (4, "ci"),
             None => (3, "p.q"),
         };
         unsafe {
@@ -281,6 +286,7 @@ fn c18_precedence_explicit_profile() {
 // @bounds as c18_precedence_explicit_profile; PX_PROFILE in {absent, "dev", "prd", "zz"}
 // @functions ConfigProfile::load, ConfigLoader::load
 // @timeout 1800
+// @solver default
 #[kani::proof]
 #[kani::unwind(8)]
 #[kani::stub(std::fmt::format, fmt_stub)]
